@@ -139,3 +139,16 @@ func init() {
 		return tuple{"", iface{t: types.NewPointer(t), v: &v}}
 	}
 }
+
+// math/rand (top-level functions; the package's global source is not initialised): a fixed
+// stream - every integer draw is 0 (the smallest legal value), Float64 is 0.5. Stated as an
+// assumption wherever a harness reaches it; nothing a property asserts may depend on it.
+func init() {
+	zeroInt := func(i *Interp, fr *frame, a []value) value { return int64(0) }
+	for _, n := range []string{"Int", "Intn", "Int31", "Int31n", "Int63", "Int63n", "Uint32", "Uint64"} {
+		intrinsics["math/rand."+n] = zeroInt
+	}
+	intrinsics["math/rand.Float64"] = func(i *Interp, fr *frame, a []value) value { return float64(0.5) }
+	intrinsics["math/rand.Float32"] = func(i *Interp, fr *frame, a []value) value { return float32(0.5) }
+	intrinsics["math/rand.Seed"] = func(i *Interp, fr *frame, a []value) value { return nil }
+}
